@@ -90,6 +90,8 @@ def _build(case):
     for a in case['attrs']:
         ns = sub_ns if a['level'] == 1 else base_ns
         ns[a['attr']] = O.DBusProperty(a['pname'], a['iface'] if a['explicit'] else None)
+    if len(case['attrs']) % 2:
+        sub_ns['__len__'] = lambda self: 0      # the exported object may be false in a boolean context
     Base = type('PBase', (O.DBusObject,), base_ns)
     Sub = type('PSub', (Base,), sub_ns)
     return Sub
